@@ -159,12 +159,17 @@ PROPS["C28"] = dict(
     level="proof",
     text="collection laws that live in vrl code: slice agrees with positional indexing (every array/string, every i64 start/end, incl. negative positions and error cases), "
          "length agrees with the container, merge has from's values on shared keys / recursive merge of objects under `deep` to every depth -- the real bodies of stdlib slice, length and merge_maps, extracted and verified by Verus; "
-         "the string laws (casing, strip_whitespace, split/join, starts_with/ends_with/contains, truncate, strlen) and unique/compact/keys/values are NOT decided: they are std str/IndexSet/BTreeMap calls outside both verifiers",
+         "the string laws (casing, strip_whitespace, split/join, starts_with/ends_with/contains, truncate, strlen) and unique/compact/keys/values are std str/IndexSet/BTreeMap calls outside both verifiers: they are covered only by bounded native stand-ins (labelled bounded, never counted as proved)",
     verus=["v_collections"],
     kani=[],
     bounded_native=[dict(unit="collection_laws", bound="arrays and strings of length 0..4 x start,end in -6..6 (and no end); 57 objects of depth <= 3 pairwise, deep and shallow",
                          functions=["stdlib slice/length/merge through compiled VRL programs (argument plumbing: SliceFn/LengthFn/MergeFn::resolve)"],
-                         text="the argument plumbing of the three function expressions (resolve: optional end, deep default) is outside the extracted bodies: slice/length/merge called from VRL agree with a reference model on the stated domain")],
+                         text="the argument plumbing of the three function expressions (resolve: optional end, deep default) is outside the extracted bodies: slice/length/merge called from VRL agree with a reference model on the stated domain"),
+                    dict(unit="string_laws", bound="all 1555 strings over {a, B, space, comma, e-acute, sharp-s} up to length 4 x 5 separators x 6 limits; all 128 sub-lists of 7 items for unique/compact/keys/values: 58047 law instances",
+                         functions=["stdlib upcase, downcase, strip_whitespace, strlen, split, join, starts_with, ends_with, contains, truncate, unique, compact, keys, values (std str / IndexSet / iterator code outside both verifiers)"],
+                         text="the string and collection laws of the property on the stated domain: idempotence of upcase/downcase/strip_whitespace, strip_whitespace = trim, strlen = scalar count, join(split(s, d), d) == s, starts_with/ends_with/contains agree with substring position, truncate keeps min(n, len) characters (+ suffix), unique keeps first occurrences, compact drops exactly the empty items, keys/values agree with the object")] + [
+                    dict(unit="casing_" + f, bound="all 4681 strings over {a, B, space, comma, e-acute, sharp-s, underscore, 1} up to length 4", functions=["stdlib " + f + " (convert_case)"],
+                         text=f + "(" + f + "(s)) == " + f + "(s) on the stated domain") for f in ["snakecase", "kebabcase", "screamingsnakecase", "camelcase", "pascalcase"]],
     trusted=["verus prelude collections.rs: bytes::Bytes::slice and Vec::drain(range).collect() return the sub-sequence [start, end) (and panic unless start <= end <= len, which is therefore a proof obligation of the caller); BTreeMap get_mut/insert/iteration as a finite map visited once per key; Value/KeyString clone is the identity",
              "`len as i64` equals the length (std allocation bound isize::MAX; prelude len_i64)",
              "error-message construction (format!, ValueError::Expected) opaque",
@@ -256,7 +261,13 @@ PROPS["C19"] = dict(
     verus=["v_kind_merge", "v_unknown_merge"],
     bounded_native=[dict(unit="kind_union", bound="23 object/array/scalar kinds (empty, exact, any, json / timestamp / integer unknowns, nested one level, mixed with null) pairwise x 19 values, judged by an independent membership predicate",
                          functions=["Kind::union -> Collection::merge -> Unknown::merge, Kind::is_superset, Kind::from(&Value)"],
-                         text="Collection::merge itself (BTreeMap walk, unknown handling) is only assumed by the Verus unit: on the stated domain a value of either operand's kind belongs to the union and the union is a superset of both operands")],
+                         text="Collection::merge itself (BTreeMap walk over known fields) is only assumed by the Verus unit: on the stated domain a value of either operand's kind belongs to the union, and a kind accepted by is_superset admits every value of the other"),
+                    dict(unit="kind_crud", bound="15 kinds x the listed values they admit x 12 paths (fields, nested, positive/negative/out-of-range indices) x 4 inserted (value, kind) pairs x prune on/off: 2408 cases",
+                         functions=["Kind::at_path / insert (insert_recursive) / remove against Value::get / insert / remove"],
+                         text="type-level get / insert / remove are out of both verifiers' reach (BTreeMap-backed recursion): on the stated domain what a value has at a path belongs to the type's view of the path, and the value after insertion / removal belongs to the type after insertion / removal (independent membership predicate)"),
+                    dict(unit="kind_crud_neg_insert", bound="the same domain restricted to insertions whose last segment is a negative index before the start of a non-empty array (28 cases)",
+                         functions=["Kind::insert_recursive, exactly-known array, negative index"],
+                         text="the case class of the recorded finding, kept apart so that any other failure of kind_crud is reported")],
     trusted=["verus prelude kindmerge.rs: collections are abstract; Collection::merge under the union strategy is ASSUMED to admit every value either operand admits (checked only on the bounded domain kind_union); Option::or by definition; Kind::clone is the identity",
              "verus prelude unknownmerge.rs: an element value is abstracted to the set of type tags occurring in it; an infinite kind admits a value iff all its tags are states of the kind; Kind::from(Infinite) has that membership; Kind::is_superset is sound (Ok implies inclusion; its scalar fragment is decided by Kani); removing `undefined` changes no membership of a value; Kind::merge_keep admits both operands (v_kind_merge)"],
     not_covered=["Collection::merge (the BTreeMap walk over known fields), and the type-level path operations at_path / insert / remove over BTreeMap-backed collections: symbolic collection kinds are out of CBMC's reach here (rule 1) and BTreeMap iteration is outside Verus' subset",
